@@ -58,7 +58,7 @@ Inductive child_result := Exited (status : N) | Signaled | ExecFailed.
 Record service := mkService { sv_name : bname; sv_exec : N; sv_parse_ok : bool }.
 
 Record cfg := mkCfg {
-  services : list service;            (* BusActivation.entries, in loading order *)
+  services : list service;            (* BusActivation.entries at start-up: the .service files in the configured directories, in loading order *)
   max_pending : N;                    (* limits.max_pending_activations *)
   pol_activate : bname -> N -> bool;  (* bus_context_check_security_policy with no recipient: destination name, message class *)
   pol_deliver : list N -> N -> bool   (* ... with the recipient: well-known names it owns, message class *)
@@ -76,9 +76,13 @@ Record state := mkState {
   st_owners : list (N * N);      (* well-known name k -> primary owner *)
   st_pend : list pending;        (* BusActivation.pending_activations, in order of creation *)
   st_next_sid : N;               (* number of processes started so far *)
-  st_next_id : N }.              (* ghost: number of ESend/EStart events so far *)
+  st_next_id : N;                (* ghost: number of ESend/EStart events so far *)
+  st_services : list service }.  (* BusActivation.entries: what activation_find_entry finds, i.e. the .service files
+                                    currently in the configured directories (the cache is refreshed on every lookup:
+                                    check_service_file / update_service_cache, and rebuilt by bus_activation_reload) *)
 
-Definition init : state := mkState [] 0 [] [] 0 0.
+(* bus_activation_new *)
+Definition start (cf : cfg) : state := mkState [] 0 [] [] 0 0 cf.(services).
 
 Inductive out :=
 | OSpawn (sid : N) (n : bname) (exec : N)               (* _dbus_spawn_async_with_babysitter *)
@@ -98,7 +102,11 @@ Inductive event :=
 | ERelease (c serial k : N)                             (* c calls ReleaseName(k) *)
 | EDisconnect (c : N)
 | EChild (sid : N) (r : child_result)                   (* the babysitter of process sid reports *)
-| ETimeout (sid : N).                                   (* the activation timeout of the pending activation with babysitter sid fires *)
+| ETimeout (sid : N)                                    (* the activation timeout of the pending activation with babysitter sid fires *)
+| EReload (c serial : N)                                (* c calls ReloadConfig (SIGHUP does the same without the reply):
+                                                           bus_context_reload_config -> bus_activation_reload *)
+| ESetServices (svcs : list service).                   (* .service files are installed in / removed from the configured directories
+                                                           (and the directory watch makes the bus reload) *)
 
 (* ---------------------------------------------------------------- lookups *)
 Definition connected (st : state) (c : N) : bool := existsb (N.eqb c) st.(st_conns).
@@ -126,8 +134,8 @@ Definition find_sid (sid : N) (l : list pending) : option pending :=
   find (fun p => p.(p_sid) =? sid) l.
 
 (* activation_find_entry *)
-Definition find_service (cf : cfg) (n : bname) : option service :=
-  find (fun s => bname_eqb s.(sv_name) n) cf.(services).
+Definition find_service (st : state) (n : bname) : option service :=
+  find (fun s => bname_eqb s.(sv_name) n) st.(st_services).
 
 (* BusActivation.n_pending_activations *)
 Definition n_pending (l : list pending) : N :=
@@ -145,7 +153,7 @@ Definition remove_name (n : bname) (l : list pending) : list pending :=
   filter (fun p => negb (bname_eqb p.(p_name) n)) l.
 
 Definition set_pend (st : state) (l : list pending) : state :=
-  mkState st.(st_conns) st.(st_next_conn) st.(st_owners) l st.(st_next_sid) st.(st_next_id).
+  mkState st.(st_conns) st.(st_next_conn) st.(st_owners) l st.(st_next_sid) st.(st_next_id) st.(st_services).
 
 (* ---------------------------------------------------------------- the three fan-outs *)
 (* bus_activation_service_created: a success reply for every StartServiceByName caller still connected *)
@@ -168,7 +176,7 @@ Definition fail_outs (st : state) (er : err) (p : pending) : list out :=
 (* ---------------------------------------------------------------- bus_activation_activate_service *)
 Definition activate (cf : cfg) (st : state) (c id serial : N) (n : bname) (auto : bool) (cl : N) : state * list out :=
   if cf.(max_pending) <=? n_pending st.(st_pend) then (st, [OErr c id serial ELimitsExceeded]) else
-  match find_service cf n with
+  match find_service st n with
   | None => (st, [OErr c id serial EServiceUnknown])
   | Some sv =>
     if auto && negb (cf.(pol_activate) n cl) then (st, [OErr c id serial EAccessDenied]) else
@@ -180,7 +188,7 @@ Definition activate (cf : cfg) (st : state) (c id serial : N) (n : bname) (auto 
       if sv.(sv_parse_ok) then
         let sid := st.(st_next_sid) in
         (mkState st.(st_conns) st.(st_next_conn) st.(st_owners)
-                 (st.(st_pend) ++ [mkPending n sv.(sv_exec) sid [e]]) (sid + 1) st.(st_next_id),
+                 (st.(st_pend) ++ [mkPending n sv.(sv_exec) sid [e]]) (sid + 1) st.(st_next_id) st.(st_services),
          [OSpawn sid n sv.(sv_exec)])
       else (st, [OErr c id serial ESpawnInvalidArgs])                     (* cancel_pending_activation *)
     end
@@ -216,13 +224,13 @@ Definition child_error (r : child_result) : option err :=
   end.
 
 Definition bump_id (st : state) : state :=
-  mkState st.(st_conns) st.(st_next_conn) st.(st_owners) st.(st_pend) st.(st_next_sid) (st.(st_next_id) + 1).
+  mkState st.(st_conns) st.(st_next_conn) st.(st_owners) st.(st_pend) st.(st_next_sid) (st.(st_next_id) + 1) st.(st_services).
 
 Definition step (cf : cfg) (st : state) (e : event) : state * list out :=
   match e with
   | EConnect =>
       let c := st.(st_next_conn) in
-      let st1 := mkState (st.(st_conns) ++ [c]) (c + 1) st.(st_owners) st.(st_pend) st.(st_next_sid) st.(st_next_id) in
+      let st1 := mkState (st.(st_conns) ++ [c]) (c + 1) st.(st_owners) st.(st_pend) st.(st_next_sid) st.(st_next_id) st.(st_services) in
       (* bus_driver_handle_hello: bus_registry_ensure -> bus_activation_service_created for the unique name;
          bus_registry_acquire_service is not involved, so nothing is replayed and nothing is removed *)
       (st1, created st1 (Uq c))
@@ -240,7 +248,7 @@ Definition step (cf : cfg) (st : state) (e : event) : state * list out :=
             (st1, outs ++ [ODrv c serial (if o =? c then 4 else 3)])         (* ALREADY_OWNER / EXISTS *)
         | None =>
             let cr := created st (Wk k) in                                    (* bus_registry_ensure *)
-            let st1 := mkState st.(st_conns) st.(st_next_conn) ((k, c) :: st.(st_owners)) st.(st_pend) st.(st_next_sid) st.(st_next_id) in
+            let st1 := mkState st.(st_conns) st.(st_next_conn) ((k, c) :: st.(st_owners)) st.(st_pend) st.(st_next_sid) st.(st_next_id) st.(st_services) in
             let '(st2, outs) := resolve cf st1 (Wk k) c in
             (st2, cr ++ outs ++ [ODrv c serial 1])                            (* PRIMARY_OWNER *)
         end
@@ -250,7 +258,7 @@ Definition step (cf : cfg) (st : state) (e : event) : state * list out :=
         match assoc k st.(st_owners) with
         | Some o =>
             if o =? c then
-              (mkState st.(st_conns) st.(st_next_conn) (filter (fun p => negb (fst p =? k)) st.(st_owners)) st.(st_pend) st.(st_next_sid) st.(st_next_id),
+              (mkState st.(st_conns) st.(st_next_conn) (filter (fun p => negb (fst p =? k)) st.(st_owners)) st.(st_pend) st.(st_next_sid) st.(st_next_id) st.(st_services),
                [ODrv c serial 1])                                             (* RELEASED *)
             else (st, [ODrv c serial 3])                                      (* NOT_OWNER *)
         | None => (st, [ODrv c serial 2])                                     (* NON_EXISTENT *)
@@ -258,7 +266,7 @@ Definition step (cf : cfg) (st : state) (e : event) : state * list out :=
       else (st, [])
   | EDisconnect c =>
       (mkState (filter (fun x => negb (x =? c)) st.(st_conns)) st.(st_next_conn)
-               (filter (fun p => negb (snd p =? c)) st.(st_owners)) st.(st_pend) st.(st_next_sid) st.(st_next_id), [])
+               (filter (fun p => negb (snd p =? c)) st.(st_owners)) st.(st_pend) st.(st_next_sid) st.(st_next_id) st.(st_services), [])
   | EChild sid r =>
       match find_sid sid st.(st_pend), child_error r with
       | Some p, Some er =>
@@ -274,6 +282,12 @@ Definition step (cf : cfg) (st : state) (e : event) : state * list out :=
       | Some p => (set_pend st (filter (fun q => negb (q.(p_sid) =? sid)) st.(st_pend)), OKill sid :: fail_outs st ETimedOut p)
       | None => (st, [])
       end
+  | EReload c serial =>
+      (* bus_activation_reload rebuilds `entries` and `directories` from the same directories; `pending_activations`
+         is created once in bus_activation_new ("we don't want to lose pending activations on reload") *)
+      if connected st c then (st, [ODrv c serial 0]) else (st, [])
+  | ESetServices svcs =>
+      (mkState st.(st_conns) st.(st_next_conn) st.(st_owners) st.(st_pend) st.(st_next_sid) st.(st_next_id) svcs, [])
   end.
 
 Fixpoint run (cf : cfg) (st : state) (h : list event) : state * list (list out) :=
@@ -286,8 +300,8 @@ Fixpoint run (cf : cfg) (st : state) (h : list event) : state * list (list out) 
 (* events that the harness never produces: actor not connected *)
 Definition wf_event (st : state) (e : event) : bool :=
   match e with
-  | EConnect | EChild _ _ | ETimeout _ => true
-  | ESend c _ _ _ _ | EStart c _ _ | ERequest c _ _ | ERelease c _ _ | EDisconnect c => connected st c
+  | EConnect | EChild _ _ | ETimeout _ | ESetServices _ => true
+  | ESend c _ _ _ _ | EStart c _ _ | ERequest c _ _ | ERelease c _ _ | EDisconnect c | EReload c _ => connected st c
   end.
 
 (* the sids of the pending activations, oldest first (the driver's "all timeouts fire" tick) *)
